@@ -17,7 +17,13 @@ from pandas.api.types import is_bool_dtype
 from pandas.errors import IndexingError
 
 from dask_expr._collection import Series, from_legacy_dataframe, new_collection
-from dask_expr._expr import Blockwise, MaybeAlignPartitions, Projection, are_co_aligned
+from dask_expr._expr import (
+    Blockwise,
+    MaybeAlignPartitions,
+    Partitions,
+    Projection,
+    are_co_aligned,
+)
 from dask_expr._util import is_scalar
 
 
@@ -165,6 +171,23 @@ class LocBase(Blockwise):
     def _task(self, index):
         return self._layer_cache[(self._name, index)]
 
+    def _frame_partitions(self):
+        """Partitions of ``frame`` feeding the output partitions (in order)"""
+        raise NotImplementedError()
+
+    @property
+    def _partitions_aligned(self):
+        # Only then is output partition ``i`` computed from partition ``i``
+        # of ``frame``, which is what ``Blockwise`` promises (and what
+        # blockwise fusion and the ``Partitions`` push-down rely on).
+        return self._frame_partitions() == list(range(self.frame.npartitions))
+
+    def _lower(self):
+        parts = self._frame_partitions()
+        if not parts or self._partitions_aligned:
+            return
+        return type(self)(Partitions(self.frame, parts), self.iindexer, self.cindexer)
+
 
 class LocUnknown(Blockwise):
     _parameters = ["frame", "iindexer", "cindexer"]
@@ -174,6 +197,9 @@ class LocUnknown(Blockwise):
 class LocElement(LocBase):
     def _divisions(self):
         return (self.iindexer, self.iindexer)
+
+    def _frame_partitions(self):
+        return [_get_partitions(self.frame, self.iindexer)]
 
     def _layer(self) -> dict:
         part = _get_partitions(self.frame, self.iindexer)
@@ -212,6 +238,10 @@ class LocList(LocBase):
 
     def _divisions(self):
         return self._layer_information[1]
+
+    def _frame_partitions(self):
+        # an empty indexer yields one (empty) partition that reads nothing
+        return sorted(_get_partitions(self.frame, self.iindexer)) or [0]
 
     def _layer(self) -> dict:
         return self._layer_information[0]
@@ -257,6 +287,9 @@ class LocSlice(LocBase):
         else:
             istop = coerce_loc_index(self.frame, self.iindexer.stop)
         return istop
+
+    def _frame_partitions(self):
+        return list(range(self.start, self.stop + 1))
 
     def _divisions(self):
         if self.stop == self.start:
